@@ -11,6 +11,7 @@ print(' '.join(sorted(set([m['property']]+m['caught_by_quick_checks']))))")
   CAUGHT=""
   for C in $CHECKS; do
     R=$(tools/eval_mutant.sh $D/patch.diff $C 2>&1 | grep "^== $C" | sed 's/.*exit=//')
+    [ -z "$R" ] && { echo "$ID: evaluation of $C did not run"; continue 2; }
     [ "$R" = "1" ] && CAUGHT="$CAUGHT $C"
   done
   echo "$ID:$CAUGHT"
